@@ -161,3 +161,16 @@ CHECKS["C17"] = dict(
           "destination buffer incl. guards vs model expectation, source unchanged. distinct_nontrivial = cases with >= 2 elements. The archive kind cycles over view pairs (all three kinds occur in every extents class)."),
     assumptions=["Boost.Serialization is the environment", "views of read-only type (const_subarray) cannot be saved on this tree (serialize() does not compile for them): not generated", "g++ 12 -O0 ASan+UBSan"],
 )
+
+CHECKS["C07"] = dict(
+    title="equality and ordering", level="exploration", engine="E4",
+    claim=("Complete enumeration: every ordered pair of logical values over a small alphabet (D=0: {0,1,2}; D=1: all vectors of length 0..3 over {0,1,2}; D=2..4: all arrays of a shape menu over {0,1}, including "
+           "pairs of different extents with equal flat contents and empty operands) x 16 representation pairs (owning array, static_array, array_ref, view of rotated storage, padded sub-block, array<short>, view "
+           "of array<short>) x constness of either side x the six operators, compared with nested-sequence semantics. Agreement with the model on all pairs implies irreflexivity, antisymmetry, transitivity and "
+           "trichotomy, because the model is a strict weak order. An operator that is ill-formed for an operand pair is a finding (the property names the six operators)."),
+    jobs=lambda tier: [Job("cmpmc", cfg="san", defs=["-DCMP_D=%d" % d], args=["--tier=" + tier]) for d in (0, 1, 2, 3, 4)],
+    rule=("flat grid of (lhs value, rhs value, representation pair, constness pair, operator); oracle: == iff same extents and same elements, != its negation (required also for empty operands), < lexicographic over the "
+          "leading dimension recursively with 'proper prefix is smaller', <= > >= derived; for empty operands only ==/!= consistency (and equality of identical empties). evaluations = operator evaluations; "
+          "distinct_nontrivial = ordered pairs of distinct non-empty logical values."),
+    assumptions=["nested-sequence reference semantics (harness/cmpmc.cpp m_eq/m_less)", "values are written into each representation by plain indexing (C01's business)", "g++ 12 -O0 ASan+UBSan"],
+)
